@@ -12,12 +12,20 @@ import (
 // AS numbers, origin AS, local AS and the operation sequence are symbolic / forked.
 
 type c16pfx struct {
-	b    [4]byte
+	b    []byte
 	bits int
 }
 
-var c16roaPfx = []c16pfx{{[4]byte{10, 0, 0, 0}, 8}, {[4]byte{10, 1, 0, 0}, 16}, {[4]byte{10, 1, 1, 0}, 24}, {[4]byte{192, 0, 2, 0}, 24}}
-var c16routePfx = []c16pfx{{[4]byte{10, 1, 1, 0}, 24}, {[4]byte{10, 1, 0, 0}, 16}, {[4]byte{10, 2, 0, 0}, 16}, {[4]byte{10, 1, 1, 128}, 25}, {[4]byte{192, 0, 2, 0}, 25}, {[4]byte{172, 16, 0, 0}, 12}}
+var c16roaPfx4 = []c16pfx{{[]byte{10, 0, 0, 0}, 8}, {[]byte{10, 1, 0, 0}, 16}, {[]byte{10, 1, 1, 0}, 24}, {[]byte{192, 0, 2, 0}, 24}}
+var c16routePfx4 = []c16pfx{{[]byte{10, 1, 1, 0}, 24}, {[]byte{10, 1, 0, 0}, 16}, {[]byte{10, 2, 0, 0}, 16}, {[]byte{10, 1, 1, 128}, 25}, {[]byte{192, 0, 2, 0}, 25}, {[]byte{172, 16, 0, 0}, 12}}
+
+// the same nesting in IPv6: /32 > /48 > /64, an unrelated /48, routes inside, beside and below them
+func c16v6(b ...byte) []byte { return append(b, make([]byte, 16-len(b))...) }
+
+var c16roaPfx6 = []c16pfx{{c16v6(0x20, 0x01, 0x0d, 0xb8), 32}, {c16v6(0x20, 0x01, 0x0d, 0xb8, 0, 1), 48}, {c16v6(0x20, 0x01, 0x0d, 0xb8, 0, 1, 0, 1), 64}, {c16v6(0x20, 0x01, 0x0d, 0xb9, 0, 2), 48}}
+var c16routePfx6 = []c16pfx{{c16v6(0x20, 0x01, 0x0d, 0xb8, 0, 1, 0, 1), 64}, {c16v6(0x20, 0x01, 0x0d, 0xb8, 0, 1), 48}, {c16v6(0x20, 0x01, 0x0d, 0xb8, 0, 2), 48}, {c16v6(0x20, 0x01, 0x0d, 0xb8, 0, 1, 0, 1, 0x80), 65}, {c16v6(0x20, 0x01, 0x0d, 0xb9, 0, 2), 49}, {c16v6(0x20, 0x02), 16}}
+
+var c16roaPfx, c16routePfx []c16pfx
 
 func c16covers(r, p c16pfx) bool {
 	if r.bits > p.bits {
@@ -39,6 +47,12 @@ type c16rec struct {
 }
 
 func VH_c16_validate() {
+	afi, fam, maxBits := bgp.AFI_IP, bgp.RF_IPv4_UC, 32
+	c16roaPfx, c16routePfx = c16roaPfx4, c16routePfx4
+	if vParam("v6") == 1 {
+		afi, fam, maxBits = bgp.AFI_IP6, bgp.RF_IPv6_UC, 128
+		c16roaPfx, c16routePfx = c16roaPfx6, c16routePfx6
+	}
 	rt := NewROATable(c14logger())
 	var model []c16rec
 	n := vParam("roas")
@@ -46,10 +60,10 @@ func VH_c16_validate() {
 	for i := 0; i < n; i++ {
 		pi := vChoice("roa_pfx", len(c16roaPfx))
 		ml := vU8("maxlen")
-		vAssume(int(ml) >= c16roaPfx[pi].bits && ml <= 32)
+		vAssume(int(ml) >= c16roaPfx[pi].bits && int(ml) <= maxBits)
 		as := vU32("roa_as")
 		src := srcs[vChoice("src", 2)]
-		rt.Add(NewROA(bgp.AFI_IP, c16roaPfx[pi].b[:], uint8(c16roaPfx[pi].bits), ml, as, src))
+		rt.Add(NewROA(afi, c16roaPfx[pi].b, uint8(c16roaPfx[pi].bits), ml, as, src))
 		dup := false
 		for _, m := range model {
 			if m.pi == pi && m.maxLen == ml && m.as == as && m.src == src {
@@ -66,13 +80,13 @@ func VH_c16_validate() {
 		k := vChoice("which", n)
 		if k < len(model) {
 			m := model[k]
-			rt.Delete(NewROA(bgp.AFI_IP, c16roaPfx[m.pi].b[:], uint8(c16roaPfx[m.pi].bits), m.maxLen, m.as, m.src))
+			rt.Delete(NewROA(afi, c16roaPfx[m.pi].b, uint8(c16roaPfx[m.pi].bits), m.maxLen, m.as, m.src))
 			model = append(model[:k:k], model[k+1:]...)
 		}
 	case 2: // withdraw a record that was never announced: no effect
-		rt.Delete(NewROA(bgp.AFI_IP, c16roaPfx[3].b[:], 24, 24, 4200000001, "cacheA"))
+		rt.Delete(NewROA(afi, c16roaPfx[3].b, uint8(c16roaPfx[3].bits), uint8(c16roaPfx[3].bits), 4200000001, "cacheA"))
 		for _, m := range model {
-			vAssume(!(m.pi == 3 && m.maxLen == 24 && m.as == 4200000001 && m.src == "cacheA"))
+			vAssume(!(m.pi == 3 && int(m.maxLen) == c16roaPfx[3].bits && m.as == 4200000001 && m.src == "cacheA"))
 		}
 	case 3: // a cache server is removed
 		rt.DeleteAll("cacheA")
@@ -85,13 +99,17 @@ func VH_c16_validate() {
 		model = keep
 	}
 	// table content equals the records announced and not withdrawn
-	l, _ := rt.List(bgp.RF_IPv4_UC)
+	l, _ := rt.List(fam)
 	vAssert(len(l) == len(model), "ROA table differs from the records announced and not withdrawn")
 	for _, r := range l {
 		found := false
 		for _, m := range model {
 			ones, _ := r.Network.Mask.Size()
-			if ones == c16roaPfx[m.pi].bits && r.Network.IP[0] == c16roaPfx[m.pi].b[0] && r.Network.IP[1] == c16roaPfx[m.pi].b[1] && r.Network.IP[2] == c16roaPfx[m.pi].b[2] && r.MaxLen == m.maxLen && r.AS == m.as && r.Src == m.src {
+			same := len(r.Network.IP) == len(c16roaPfx[m.pi].b)
+			for k := 0; same && k < len(r.Network.IP); k++ {
+				same = r.Network.IP[k] == c16roaPfx[m.pi].b[k]
+			}
+			if ones == c16roaPfx[m.pi].bits && same && r.MaxLen == m.maxLen && r.AS == m.as && r.Src == m.src {
 				found = true
 			}
 		}
@@ -123,10 +141,11 @@ func VH_c16_validate() {
 	if shape != 0 {
 		attrs = append(attrs, bgp.NewPathAttributeAsPath(segs))
 	}
-	nlri, _ := bgp.NewIPAddrPrefix(netip.PrefixFrom(netip.AddrFrom4(rp.b), rp.bits))
-	p := &Path{info: &originInfo{nlri: nlri, nlriString: "r", source: &PeerInfo{LocalAS: localAS, AS: other, Address: netip.AddrFrom4([4]byte{10, 0, 0, 1})}}, pathAttrs: attrs, family: bgp.RF_IPv4_UC}
+	raddr, _ := netip.AddrFromSlice(rp.b)
+	nlri, _ := bgp.NewIPAddrPrefix(netip.PrefixFrom(raddr, rp.bits))
+	p := &Path{info: &originInfo{nlri: nlri, nlriString: "r", source: &PeerInfo{LocalAS: localAS, AS: other, Address: netip.AddrFrom4([4]byte{10, 0, 0, 1})}}, pathAttrs: attrs, family: fam}
 	v := rt.Validate(p)
-	vAssert(v != nil, "no validation result for an IPv4 unicast route")
+	vAssert(v != nil, "no validation result for a unicast route")
 	// RFC 6811
 	covered, matched := false, false
 	for _, m := range model {
